@@ -1,3 +1,4 @@
+import OpacusLean.Generated.GdpAnalysis
 import OpacusLean.Lemmas.GdpMono
 import OpacusLean.Lemmas.AcctHistoryRle
 import OpacusLean.Lemmas.RdpMonoQ
@@ -326,5 +327,35 @@ example : 0 < muPoisson 100 (1 : ℝ) (1 / 100) ∧
   · unfold rootResidual; rw [deltaEpsMu_real]; ring
 
 end gdpRoot
+
+/-! ## The tie to the source: `analysis/gdp.py` re-translated on every run -/
+/-- closes `generated = model` over ℝ up to harmless rewrites (literal spelling `x ** (-2)` vs `1/(x*x)`, `1.5` vs `3/2`,
+operand order, association) -/
+macro "gdp_close" : tactic =>
+  `(tactic| first
+    | rfl
+    | (norm_num; done)
+    | (norm_num <;> simp <;> done)
+    | (norm_num; ring_nf; done)
+    | (simp only [sq, one_div, mul_inv_rev]; norm_num <;> first | done | ring_nf | (simp <;> ring_nf)))
+
+/-- the tie to the source: `compute_mu_poisson`, `compute_mu_uniform` and `delta_eps_mu`, re-translated from
+`opacus/accountants/analysis/gdp.py` on every run, are the model's functions over ℝ -/
+theorem generated_gdp_eq_model (phi : ℝ → ℝ) (steps : ℕ) (s q ε μ : ℝ) :
+    Opacus.Generated.Gdp.computeMuPoisson (steps : ℝ) s q = muPoisson steps s q ∧
+    Opacus.Generated.Gdp.computeMuUniform phi (steps : ℝ) s q = muUniform phi steps s q ∧
+    Opacus.Generated.Gdp.deltaEpsMu phi ε μ = deltaEpsMu phi ε μ := by
+  refine ⟨?_, ?_, ?_⟩
+  · show _ = Real.sqrt (Real.exp (((1 : ℕ) : ℝ) / (s * s)) - ((1 : ℕ) : ℝ)) * Real.sqrt ((steps : ℕ) : ℝ) * q
+    simp only [Opacus.Generated.Gdp.computeMuPoisson]
+    gdp_close
+  · show _ = Real.sqrt (((2 : ℕ) : ℝ)) * (q * Real.sqrt ((steps : ℕ) : ℝ)) *
+      Real.sqrt (Real.exp (((1 : ℕ) : ℝ) / (s * s)) * phi (((3 : ℕ) : ℝ) / ((2 : ℕ) : ℝ) / s)
+        + ((3 : ℕ) : ℝ) * phi (-(((1 : ℕ) : ℝ) / ((2 : ℕ) : ℝ)) / s) - ((2 : ℕ) : ℝ))
+    simp only [Opacus.Generated.Gdp.computeMuUniform]
+    gdp_close
+  · show _ = phi (-ε / μ + μ / ((2 : ℕ) : ℝ)) - Real.exp ε * phi (-ε / μ - μ / ((2 : ℕ) : ℝ))
+    simp only [Opacus.Generated.Gdp.deltaEpsMu]
+    gdp_close
 
 end Opacus.C12
